@@ -1,5 +1,6 @@
 """C07 — Kalman filters (narrow structural claim: gates, sibling recurrences, noise-scale source, weight wiring)."""
 import collections
+from mir import norm as norm_c
 from lib import ExprBuilder, path_conditions, all_closures
 
 EXPLANATION = (
@@ -65,6 +66,9 @@ def gate_rule(ctx, R):
                     # normalise so that the distance parameter is on the left
                     from lib import orient
                     o = orient(cm, lambda e: e.kind == 'place' and e.root == ('param', 1))
+                    if o and o[2].kind == 'const' and 'CHI2INV95' not in (o[2].const.get('item') or ''):
+                        from lib import resolve_const_item
+                        o = (o[0], o[1], resolve_const_item(ctx.F, o[2]))
                     if o and o[2].kind == 'const' and 'CHI2INV95' in (o[2].const.get('item') or ''):
                         gate = (o[0], ''.join(o[2].proj))
             val = eb._rvalue(d[3]['rv'], (), 0, (d[1], d[2]))
@@ -188,6 +192,17 @@ def sibling_rule(ctx, R):
         calls = []
         for cb in [vb] + all_closures(ctx.F, vb):
             calls += cb.find_calls(PT + '::' + m)
+            # the point-filter method handed over by name to a per-pair helper (`for_each_pair(.., Point2D..::update)`)
+            for c_ in cb.find_calls():
+                for a_ in c_.args:
+                    if a_.get('k') == 'const' and norm_c(a_.get('c', {}).get('fn', '')) == PT + '::' + m:
+                        calls.append(c_)
+            for blk_ in cb.blocks:
+                for s_ in blk_['st']:
+                    if s_['k'] == 'assign' and s_['rv']['k'] == 'use' and s_['rv']['op'].get('k') == 'const' and \
+                            norm_c(s_['rv']['op'].get('c', {}).get('fn', '')) == PT + '::' + m:
+                        calls.append(s_)
+        calls = calls[:1] if calls and not hasattr(calls[0], 'callee') else calls
         n += 1
         ctx.check(len(calls) == 1, R, vb, 'vec:%s-delegates-to-point-filter' % m, '',
                   'Vec2DKalmanFilter::%s does not apply Point2DKalmanFilter::%s to each of its points (%d call '
@@ -223,7 +238,46 @@ def noise_source_rule(ctx, R):
             ctx.check(ok, R, b, '%s:%s-scaled-by-current-height' % (m, c.name), why,
                       'in %s the noise scale handed to %s is %r (expected the height component [4] of the state '
                       'before it is propagated)' % (m, c.name, h), c.ln)
+        if not b.find_calls(*names):
+            # inline form (the std helpers were merged into their callers): every product `k * weight * h`
+            for w, h, ln_ in weighted_products(b, eb):
+                n += 1
+                propagated = any(x.kind == 'call' and x.name.rsplit('::', 1)[-1] == 'mul' for x in h.walk())
+                if m == 'predict':
+                    ok = not propagated and h.has_place(root=('param', 2), field='mean') and '4' in repr(h)
+                elif m == 'project':
+                    ok = not propagated and any(p.root == ('param', 2) for p in h.places()) and '4' in repr(h)
+                else:
+                    ok = not propagated and h.has_place(root=('param', 2), field='height')
+                ctx.check(ok, R, b, '%s:%s-scaled-by-current-height' % (m, w), repr(h)[:100],
+                          'in %s the noise scaled by %s uses %r (expected the height component [4] of the state before '
+                          'it is propagated)' % (m, w, h), ln_)
     return n
+
+
+def weighted_products(b, eb):
+    """[(weight field, height factor E, ln)] for every f32 product in `b` that multiplies one of the two noise weights
+    of the filter with a non-constant factor (inline form of std_position / std_velocity)"""
+    out = []
+    seen = set()
+    for i in sorted(b.live_blocks()):
+        for si, s_ in enumerate(b.blocks[i]['st']):
+            if s_['k'] != 'assign' or s_['rv']['k'] != 'bin' or s_['rv']['op'] != 'Mul':
+                continue
+            e = eb._rvalue(s_['rv'], (), 0, (i, si))
+            ws = [w for w in ('std_position_weight', 'std_velocity_weight') if e.has_field(w)]
+            if len(ws) != 1:
+                continue
+            # the factor that carries neither the weight nor a constant
+            hs = [a for a in e.args if not a.has_field(ws[0]) and a.kind != 'const']
+            if len(hs) != 1:
+                continue
+            key = (ws[0], repr(hs[0]))
+            if key in seen:
+                continue
+            seen.add(key)
+            out.append((ws[0], hs[0], s_['ln']))
+    return out
 
 
 def weights_rule(ctx, R):
@@ -246,7 +300,27 @@ def weights_rule(ctx, R):
         for h, w in (('std_position', 'std_position_weight'), ('std_velocity', 'std_velocity_weight')):
             hb = HH.kalman_helper(ctx.F, flt, h)
             if hb is None:
-                ctx.fail(R, flt, 'ANCHOR-MISSING:' + h, 'no helper of %s scales the noise by %s' % (flt, w))
+                # inline form: the noise vector is `positions.chain(velocities)`; the first half must be scaled by the
+                # position weight only, the second by the velocity weight only (in initiate and in predict)
+                okc = []
+                for mname in ('initiate', 'predict'):
+                    mb = ctx.F.one(flt + '::' + mname)
+                    if mb is None:
+                        continue
+                    me = ExprBuilder(mb)
+                    for c_ in mb.find_calls():
+                        if c_.name != 'chain' or len(c_.args) != 2:
+                            continue
+                        a0, a1 = me.arg(c_, 0), me.arg(c_, 1)
+                        okc.append(a0.has_field('std_position_weight') and not a0.has_field('std_velocity_weight') and
+                                   a1.has_field('std_velocity_weight') and not a1.has_field('std_position_weight'))
+                if okc:
+                    n += 1
+                    ctx.check(all(okc), R, flt, '%s uses %s' % (h, w), 'inline: positions.chain(velocities)',
+                              'the noise vector of %s is not (position stds scaled by the position weight) followed by '
+                              '(velocity stds scaled by the velocity weight)' % flt)
+                else:
+                    ctx.fail(R, flt, 'ANCHOR-MISSING:' + h, 'no helper of %s scales the noise by %s' % (flt, w))
                 continue
             ctx.read(hb)
             he = ExprBuilder(hb).place(0, ())
@@ -434,25 +508,42 @@ def angle_option_rule(ctx, R):
         n += 1
         ctx.check(mean_idx(a) == i, R, b, 'state->box:component[%d]' % i, repr(a),
                   'argument #%d of Universal2DBox::new is %r (expected mean[%d])' % (i + 1, a, i), c.ln)
-    # the angle operand: alternatives of the Option expression, each with the conditions of the block that builds it
+    # the angle operand: every feasible construction site of an Option<f32> in this (small) function, with the
+    # conditions of the block that builds it
+    from lib import feasible
     rows = []
-    ae = eb.arg(c, 2)
-    for alt in (ae.args if ae.kind == 'phi' else [ae]):
-        if alt.kind != 'agg' or not (alt.name.endswith('Option::Some') or alt.name.endswith('Option::None')):
-            continue
-        variant = 'Some' if alt.name.endswith('Some') else 'None'
-        site_bb = alt.site[0] if alt.site else c.bb
-        zero = None
-        for cnd in path_conditions(b, site_bb):
-            cm = cnd.cmp()
-            if not cm:
+    for i_ in sorted(b.live_blocks()):
+        for si_, s_ in enumerate(b.blocks[i_]['st']):
+            rv = s_['rv'] if s_['k'] == 'assign' else None
+            if not rv or rv['k'] != 'agg' or rv.get('ak') != 'adt' or not str(rv.get('adt', '')).endswith('option::Option'):
                 continue
-            o = orient(cm, lambda e: mean_idx(e) == 2)
-            if o and o[2].kind == 'const' and o[2].const_value() in ('0.0', '0', '-0.0'):
-                zero = o[0]
-        rows.append((variant, zero, alt))
+            if 'Option<f32>' not in b.locals[s_['lhs']['l']] and b.locals[s_['lhs']['l']] not in ('?',):
+                if not ('Option' in b.locals[s_['lhs']['l']] and 'f32' in b.locals[s_['lhs']['l']]):
+                    continue
+            conds = path_conditions(b, i_)
+            if not feasible(conds):
+                continue
+            alt = eb._rvalue(rv, (), 0, (i_, si_))
+            variant = rv['v']
+            if variant == 'Some' and mean_idx(alt.args[0]) != 2 and not (
+                    alt.args[0].kind == 'place' or alt.args[0].has_call('index')):
+                continue
+            zero = None
+            for cnd in conds:
+                cm = cnd.cmp()
+                if not cm:
+                    continue
+                o = orient(cm, lambda e: mean_idx(e) == 2)
+                if o and o[2].kind == 'const' and o[2].const_value() in ('0.0', '0', '-0.0'):
+                    zero = o[0]
+            if variant == 'Some' and zero is None and not any(mean_idx(x) == 2 for x in alt.walk()):
+                continue
+            rows.append((variant, zero, alt))
+    # an unconditional `Some(mean[2])` that only feeds a filter is not a result alternative
+    if len(rows) > 2:
+        rows = [r for r in rows if not (r[0] == 'Some' and r[1] is None)] or rows
     n += 1
-    ok = len(rows) == 2 and {r[0] for r in rows} == {'None', 'Some'} and all(
+    ok = len(rows) >= 2 and {r[0] for r in rows} == {'None', 'Some'} and all(
         (r[0] == 'None' and r[1] == 'Eq') or (r[0] == 'Some' and r[1] == 'Ne') for r in rows)
     if not rows:
         # other accepted form: Some(x).filter(|a| *a != 0.0) etc. is not recognised: fail closed with a diagnosable id
